@@ -417,12 +417,15 @@ def _classify(name, case, res):
     return 'wrong-result'
 
 MANIFEST = dict(
-    text=('Lean theorems over any linear order: is_on <-> membership in a half-open interval (incl. touching and zero-length '
-          'intervals), window query = on-time ∩ window as point sets (empty when there is none), returned pieces lie inside the '
-          'window and inside an original interval, event-subset mask, integrity check. The executable model (index arithmetic as '
-          'coded, plus the specification form) is compared bit-exactly with Livetime.is_on / get_uptime_intervals_between / '
-          'get_livetime_upto / draw_ontimes on every run; exact-fraction oracles search the implementation for failing inputs.'),
-    note=('Proved for the specification form betweenSpec; equality of the index-arithmetic form with it, get_livetime_upto = measure and '
-          'draw_ontimes in on-time are exhibited by the bit-exact correspondence and exact-fraction oracles only (partial).'),
+    text=('Lean theorems over any linear order / ordered field, all by induction over the interval list: is_on <-> membership in a '
+          'half-open interval (touching and zero-length intervals included); the index arithmetic of get_uptime_intervals_between as '
+          'coded (digitize, parity adjustment, flat-array slice, early return) never raises and equals on-time ∩ window as a point set '
+          '(refinement to a filter/clip specification); the index computation of get_livetime_upto equals Σ(min stop t − min start t); '
+          'draw_ontimes (inverse CDF over the cumulative on-time) lands in on-time and, with a window, inside the window; event-subset '
+          'mask; integrity check. The executable model is compared bit-exactly with the real Livetime methods and get_data_subset on '
+          'every run; exact-fraction oracles search the implementation for failing inputs.'),
+    note=('IEEE rounding is outside the theorems (e.g. lower + y rounding up to the closed upper edge in draw_ontimes); '
+          'numpy.digitize/cumsum are re-implemented in the model and compared on every run; np.sum pairwise summation of the total '
+          'live time is compared with a 1e-9 relative tolerance.'),
     design='DESIGN.md section 4 C14',
-    technique='Lean 4 proof (order theory, induction over interval lists) + bit-exact model/implementation correspondence')
+    technique='Lean 4 proof (induction over interval lists, refinement of index arithmetic to a specification) + bit-exact model/implementation correspondence')
